@@ -549,6 +549,95 @@ def gen_streams(ctx, n, corpus=True):
         yield item
 
 
+VIDEO_KEYS = ("profile", "frame_width", "frame_height", "color_diff_format", "fields", "interlaced", "luma_offset",
+              "luma_excursion", "color_diff_offset", "color_diff_excursion")
+
+
+def split_data_units(data):
+    """bytes of ONE sequence -> list of bytearrays, one per data unit (parse_info + payload)"""
+    units, off = [], 0
+    while off < len(data):
+        if data[off:off + 4] != b"BBCD":
+            raise ValueError("no parse_info prefix at %d" % off)
+        nxt = int.from_bytes(data[off + 5:off + 9], "big")
+        end = off + nxt if nxt else len(data)
+        if nxt == 0 and data[off + 4] != 0x10:
+            raise ValueError("zero next_parse_offset before the end of sequence")
+        units.append(bytearray(data[off:end]))
+        off = end
+    return units
+
+
+def join_data_units(units):
+    """concatenate data units, rewriting next/previous_parse_offset"""
+    out, prev = bytearray(), 0
+    for i, u in enumerate(units):
+        u = bytearray(u)
+        u[5:9] = (0 if i == len(units) - 1 else len(u)).to_bytes(4, "big")
+        u[9:13] = prev.to_bytes(4, "big")
+        prev = len(u)
+        out += u
+    return bytes(out)
+
+
+def gen_mixed_stream(ctx):
+    """ONE sequence whose consecutive pictures (whole / fragmented, any combination) use DIFFERENT transform
+    parameters (wavelets, depths, slice counts, slice sizes, fragment sizes, matrices) under the same sequence
+    header: the picture / fragment data units of 2-3 separately encoded and serialised sequences sharing the video
+    format, spliced at byte level (so the stream does not depend on the serialiser handling parameter changes).
+    Returns (label, desc, bytes) or None."""
+    I = impl()
+    C = I.common
+    rng = ctx.rng
+    kw0 = C.random_small_config(rng, max_w=16, max_h=12)
+    kws = [kw0]
+    for _ in range(rng.choice([1, 1, 2])):
+        for _try in range(12):
+            kr = C.random_small_config(rng, max_w=16, max_h=12)
+            if kr["profile"] == kw0["profile"]:
+                break
+        else:
+            return None
+        for k in VIDEO_KEYS:
+            kr[k] = kw0[k]
+        kws.append(kr)
+    # the interesting combinations need fragments somewhere and different geometry
+    for kw in kws:
+        if rng.random() < 0.5:
+            kw["fragment_slice_count"] = rng.randint(1, kw["slices_x"] * kw["slices_y"] + 1)
+        if not kw["lossless"] and kw.get("picture_bytes") is not None and kw["picture_bytes"] > 5000:
+            kw["picture_bytes"] = kw["slices_x"] * kw["slices_y"] * rng.randint(8, 60)
+    n = rng.choice([0, 0, 7, (1 << 32) - 2]) if not kw0["fields"] else rng.choice([0, 10])
+    segs = []
+    for kw in kws:
+        cf = C.make_codec_features(**kw)
+        npics = 2 if kw["fields"] else rng.choice([1, 1, 2])
+        pics = [C.random_picture(cf, rng, pic_num=(n + i) % (1 << 32)) for i in range(npics)]
+        n += npics
+        kwargs = {}
+        if kw["profile"] == "hq" and rng.random() < 0.3:
+            kwargs["minimum_slice_size_scaler"] = rng.choice([2, 3])
+        seq = I.encoder.make_sequence(cf, pics, **kwargs)
+        if kw["profile"] == "hq" and rng.random() < 0.3:
+            seq = repack_description(rng, seq, cf)
+        segs.append(split_data_units(C.serialise([seq])))
+    head = segs[0][0]
+    if head[4] != 0x00:
+        return None
+    for sg in segs[1:]:
+        if sg[0][4] != 0x00 or bytes(sg[0][13:]) != bytes(head[13:]):
+            return None  # a different sequence header (e.g. another major_version): not spliceable
+    units = list(segs[0][:-1])
+    for sg in segs[1:]:
+        units += [u for u in sg[1:-1] if u[4] != 0x00]
+    units.append(segs[0][-1])
+    data = join_data_units(units)
+    desc = C.describe_config(kw0)
+    desc["segments"] = [C.describe_config(kw) for kw in kws]
+    label = "%s/mixed/%s" % (kw0["profile"], ">".join("frag" if kw["fragment_slice_count"] else "pic" for kw in kws))
+    return label, desc, data
+
+
 def gen_fresh_streams(ctx, n):
     I = impl()
     C = I.common
@@ -559,6 +648,29 @@ def gen_fresh_streams(ctx, n):
     attempts = 0
     while made < n and attempts < 4 * n:
         attempts += 1
+        if rng.random() < 0.3:
+            try:
+                m = gen_mixed_stream(ctx)
+                if m is None:
+                    continue
+                label, desc, data = m
+                v = run_validator(data)
+                if v["verdict"] != "accept":
+                    ctx.count(0, bucket="mixed-not-accepted:" + v["verdict"].split(":", 1)[1])
+                    ctx.distribution["mixed-not-accepted:" + v["verdict"].split(":", 1)[1]] = \
+                        ctx.distribution.get("mixed-not-accepted:" + v["verdict"].split(":", 1)[1], 0) + 1
+                    continue
+                if rng.random() < 0.4:
+                    data = repack_in_place(rng, data, v["slices"], qmax=rng.choice([None, 20, 63]))
+                    label += "+inplace"
+            except I.encoder.exceptions.UnsatisfiableCodecFeaturesError:
+                continue
+            except Exception as e:
+                ctx.note("mixed generator failed: %s: %s" % (type(e).__name__, e))
+                continue
+            made += 1
+            yield (label, desc, data)
+            continue
         kw = C.random_small_config(rng, max_w=16, max_h=12)
         if not kw["lossless"] and kw["picture_bytes"] is not None and kw["picture_bytes"] > 5000:
             kw["picture_bytes"] = kw["slices_x"] * kw["slices_y"] * rng.randint(8, 60)
@@ -752,7 +864,7 @@ def run(ctx):
         "content hash.  correspondence: slices (<= 96 bytes) cut from those streams + truncated/random mutants through both Coq slice readers.")
     import time
     t0 = time.time()
-    n_streams = ctx.pick(110, 3000)
+    n_streams = ctx.pick(100, 3000)
     max_corr = ctx.pick(380, 6000)
     slice_cases = []   # (p, sx, sy, bytes)
     seen_slices = set()
